@@ -123,6 +123,7 @@ LinkLayer_init(LinkLayer self, int address, SerialTransceiverFT12 transceiver, L
         self->linkLayerParameters = linkLayerParameters;
 
         self->dir = false;
+        self->userDataSize = 0;
 
         self->llSecUnbalanced = NULL;
         self->llSecBalanced = NULL;
